@@ -30,8 +30,10 @@ def bootstrap():
     from sim import fakes
     fakes.install()
     import cascade
-    if not os.path.abspath(cascade.__file__).startswith(os.path.abspath(REPO_SRC)):
-        raise RuntimeError(f"cascade imported from {cascade.__file__}, expected {REPO_SRC}")
+    import earthkit.workflows
+    for m in (cascade, earthkit.workflows):
+        if not os.path.abspath(m.__file__).startswith(os.path.abspath(REPO_SRC)):
+            raise RuntimeError(f"{m.__name__} imported from {m.__file__}, expected {REPO_SRC}")
 
 
 def load_harness(name):
@@ -398,8 +400,9 @@ def check_main(prop, tier, replay=None):
             real_components=cfg["real"], stubbed_components=cfg["stub"], hashseeds=list(range(NHASH)), worker_processes=procs,
             replay_files=replay_paths, harness_errors=len(harness_errors), exhaustive=False),
         assumptions=cfg["assumptions"], wall_s=round(wall, 2), violations=len(unlisted))
-    os.makedirs(os.path.join(ROOT, "evidence"), exist_ok=True)
-    path = os.path.join(ROOT, "evidence", f"{prop}.json")
+    evdir = os.environ.get("VERIF_EVIDENCE_DIR", os.path.join(ROOT, "evidence"))
+    os.makedirs(evdir, exist_ok=True)
+    path = os.path.join(evdir, f"{prop}.json")
     json.dump(ev, open(path, "w"), indent=1, default=repr)
     try:
         import jsonschema
